@@ -219,6 +219,19 @@ def arrHdr (n : Nat) : List Byte :=
 def mapHdr (n : Nat) : List Byte :=
   if n < 0x10 then [UInt8.ofNat (0x80 + n)] else if n < 0x10000 then 0xDE :: beN 2 n else 0xDF :: beN 4 n
 
+/-- `Converter<MsgPackBinary>::toJson`: the raw bytes stored for a binary value set through the API -/
+def binRaw (data : List Byte) : List Byte :=
+  let n := data.length
+  (if n ≥ 0x10000 then 0xC6 :: beN 4 n else if n ≥ 0x100 then 0xC5 :: beN 2 n else 0xC4 :: beN 1 n) ++ data
+
+/-- `Converter<MsgPackExtension>::toJson` -/
+def extRaw (type : Nat) (data : List Byte) : List Byte :=
+  let n := data.length
+  (if n ≥ 0x10000 then 0xC9 :: beN 4 n
+   else if n ≥ 0x100 then 0xC8 :: beN 2 n
+   else if n == 16 then [0xD8] else if n == 8 then [0xD7] else if n == 4 then [0xD6] else if n == 2 then [0xD5] else if n == 1 then [0xD4]
+   else 0xC7 :: beN 1 n) ++ UInt8.ofNat type :: data
+
 mutual
 def ser : Val → List Byte
   | .null => [0xC0]
